@@ -7,8 +7,8 @@
         ipv6_valid[21], mode[22], pad[23]
      allowed_ranges_v4  LPM trie: (prefixlen, 4 data bytes), matched most significant bit first over the
         data bytes in memory order
-   Ghost markers: 1803 = loose mode with a valid IPv4 binding: the range check is never reached;
-   1804 = loose mode on an IPv6 frame: the C has no IPv6 range check. *)
+   Ghost marker 1804 = loose mode on an IPv6 frame: the C has no IPv6 range check.
+   (1803 was: loose mode with a valid IPv4 binding never reached the range check - repaired in /repo.) *)
 From Coq Require Import NArith List Bool.
 From Verif Require Import Base.Word Model.TcQos.
 Import ListNotations.
@@ -59,17 +59,17 @@ Definition antispoof_prog (m : amaps) (f : bytes) : averdict * list N :=
       match rd f 26 4 with
       | None => (AOob, [])
       | Some src =>
-        let bound4 := match binding with Some b => negb (nthb b 20 =? 0) | None => false end in
+        (* after the fix of the loose-mode defect (known_findings K18c, status fixed): mode first *)
         let allowed :=
-          if bound4 then
-            match binding with
-            | Some b => if (mode =? MODE_STRICT) || (mode =? MODE_LOG_ONLY) then bytes_eqb src (firstn 4 b) else false
-            | None => false
-            end
-          else if mode =? MODE_LOOSE then in_ranges (a_ranges m) src else false in
-        let mk := if bound4 && (mode =? MODE_LOOSE) then [1803] else [] in
-        if allowed then (ARet TC_ACT_OK, mk)
-        else if mode =? MODE_LOG_ONLY then (ARet TC_ACT_OK, mk) else (ARet TC_ACT_SHOT, mk)
+          if mode =? MODE_LOOSE then in_ranges (a_ranges m) src
+          else match binding with
+               | Some b => if negb (nthb b 20 =? 0)
+                           then (if (mode =? MODE_STRICT) || (mode =? MODE_LOG_ONLY) then bytes_eqb src (firstn 4 b) else false)
+                           else false
+               | None => false
+               end in
+        if allowed then (ARet TC_ACT_OK, [])
+        else if mode =? MODE_LOG_ONLY then (ARet TC_ACT_OK, []) else (ARet TC_ACT_SHOT, [])
       end
     else if bytes_eqb proto [134; 221] then
       (* C: ip6 + 1 > data_end => TC_ACT_OK *)
